@@ -73,6 +73,9 @@ def run_model(lines: list[str], timeout: float = 300.0) -> list[str]:
     return out
 
 
+_NONFINITE = re.compile(r"\bx[7f]ff[0-9a-f]{13}\b")       # IEEE bit patterns with all exponent bits set
+
+
 class Batch:
     """collect requests, run them in one driver process, hand the answers back by index"""
 
@@ -85,7 +88,14 @@ class Batch:
         return len(self.lines) - 1
 
     def run(self) -> None:
-        self.answers = run_model(self.lines)
+        # the exact-rational instance has no infinities or NaNs: an expression the implementation built
+        # with such a constant (a folded product that overflowed, say) is answered "unsupported"
+        # without being sent — every caller treats that as "no exact verdict"
+        send = [i for i, ln in enumerate(self.lines) if not (ln.startswith("Q ") and _NONFINITE.search(ln))]
+        got = run_model([self.lines[i] for i in send])
+        self.answers = ["err unsupported"] * len(self.lines)
+        for i, a in zip(send, got):
+            self.answers[i] = a
 
     def __getitem__(self, i: int) -> str:
         assert self.answers is not None
@@ -107,17 +117,23 @@ signal.signal(signal.SIGALRM, _alarm)
 LIB_ERRORS = ("domain", "missing")
 
 
+LAST = {"text": ""}        # message of the library's own exception raised by the most recent call()
+
+
 def call(f, *args, timeout: float = 5.0):
     """run f(*args) on the implementation; -> ('ok', value) | ('err', kind)
 
     kinds: domain, missing (the library's own), usage (a bare ``Exception``), overflow, recursion,
     timeout, and the foreign ones C17 forbids: zerodiv, valueerr, typeerr, keyerr, other:<Name>."""
     signal.setitimer(signal.ITIMER_REAL, timeout)
+    LAST["text"] = ""
     try:
         return ("ok", f(*args))
-    except DomainError:
+    except DomainError as ex:
+        LAST["text"] = str(ex)
         return ("err", "domain")
-    except CoordinateMissing:
+    except CoordinateMissing as ex:
+        LAST["text"] = str(ex)
         return ("err", "missing")
     except _Timeout:
         return ("err", "timeout")
@@ -137,6 +153,7 @@ def call(f, *args, timeout: float = 5.0):
         return ("err", "keyerr")
     except Exception as ex:  # noqa: BLE001
         if type(ex) is Exception:
+            LAST["text"] = str(ex)
             return ("err", "usage")
         return ("err", "other:" + type(ex).__name__)
     finally:
@@ -234,7 +251,7 @@ def strip_comments(src: str) -> str:
 
 
 # further theorem files of a property (built, scanned and axiom-audited with the main one)
-EXTRA_PROPERTY_FILES = {"C08": ["C08odd"], "C12": ["C12obj"], "C09": ["C09obj"]}
+EXTRA_PROPERTY_FILES = {"C08": ["C08odd"], "C12": ["C12obj"], "C09": ["C09obj"], "C13": ["C13point"]}
 
 
 def lean_leg(pid: str, thorough: bool) -> dict:
